@@ -11,7 +11,7 @@ Definition posts_eqb (a b : list (Z * list bool)) : bool :=
   list_eqb (pair_eqb Z.eqb (list_eqb Bool.eqb)) a b.
 
 Definition is_conc (o : op) : bool :=
-  match o with OConc _ _ | OConcN _ _ _ | OConcW _ _ | OConcS _ _ _ _ => true | _ => false end.
+  match o with OConc _ _ | OConcN _ _ _ | OConcW _ _ | OConcS _ _ _ _ | OConcStop _ _ _ _ => true | _ => false end.
 
 (* the events of chain number c of a concurrent-chain block must be exactly [spec] when all
    its tasks complete at most once (the harness fires every later callback) *)
@@ -31,12 +31,25 @@ Definition concs_ok (ns rounds : Z) (tasks : list beh) (l : list sev) : bool :=
                        | _ => false
                        end) l.
 
+(* teardown with closures queued (C15_only_consumer_executes, C15_exactly_once: at most once,
+   FIFO, nothing rejected runs): what ran of poster 0 is (0,0),(0,1),... - a prefix of its n
+   closures, the rest was dropped with the consumer; every Post after Stop failed, in order;
+   nothing else happened.  WHERE the closures ran (consumer goroutine, one at a time) is in
+   the observation's goroutine flag. *)
+Definition stop_ok (n k : Z) (l : list sev) : bool :=
+  let ex := exec_events l in
+  let fails := flat_map (fun e => match e with SPostFail p j => [(p, j)] | _ => [] end) l in
+  forallb (fun e => match e with SExec _ _ | SPostFail _ _ => true | _ => false end) l
+  && forallb (fun x => Z.eqb (fst x) 0) ex && fifo_ok 0 ex && Nat.leb (length ex) (Z.to_nat n)
+  && list_eqb zz_eqb fails (map (fun j => (1, j)) (zseq 0 (Z.to_nat k))).
+
 Definition conc_ok (o : op) (l : list sev) : bool :=
   match o with
   | OConc _ progs => accepts_conc progs l
   | OConcN _ np n => accepts_conc (uniform_progs np n) l
   | OConcW _ chains => concw_ok chains l
   | OConcS _ ns rd tasks => concs_ok ns rd tasks l
+  | OConcStop _ _ n k => stop_ok n k l
   | _ => true
   end.
 
